@@ -47,6 +47,16 @@ CHECKS = {
         note="Labels whitespace-free; names one stripped line; |x|<1e5; isotopes / formal charges / stereo / attributes are not expressible in mol2 and not compared.",
         technique="round-trip + fixed-point property testing; exhaustive enumeration of the emitted token vocabulary",
     ),
+    "C08": dict(
+        category="exploration",
+        text="Round-trip leg over generated geometries and 1-5 frame ensembles through every xyz loader entry point (count, order, elements, coordinates at "
+             "the written precision, second write identical); metamorphic unit leg: the same Angstrom geometry expressed in each DistanceUnit member with the "
+             "physical factor held by the harness (CODATA), read with source_units through xyz and mol2 single / load_all / ensemble loaders, pairwise distances "
+             "compared with the Angstrom original.",
+        design_ref="DESIGN.md section 5, C08",
+        note="xyz has no names / charges / bonds; unit tolerance 1e-5 relative because molli's Bohr entry has 6 digits.",
+        technique="round-trip + metamorphic (unit re-expression) property testing with Hypothesis",
+    ),
     "C02": dict(
         category="exploration",
         text="Bounded-exhaustive (all op sequences up to length 4/5 over a 14-letter alphabet on two raw UKVFile handles) plus random "
